@@ -158,6 +158,10 @@ enum How {
     Intercepted,
     WithInterceptor,
     Layered,
+    /// GrpcWebLayer::new().layer(svc) = tonic_web::GrpcWebService<svc>: NAME by tonic-web's impl
+    GrpcWeb,
+    /// Stack(RecLayer, GrpcWebLayer).named_layer(svc): NAME by tonic's Layered around GrpcWebService
+    GrpcWebLayered,
 }
 impl How {
     fn s(self) -> &'static str {
@@ -166,10 +170,12 @@ impl How {
             How::Intercepted => "InterceptedService::new",
             How::WithInterceptor => "XxxServer::with_interceptor",
             How::Layered => "Layered (named_layer)",
+            How::GrpcWeb => "tonic_web::GrpcWebService (GrpcWebLayer::layer)",
+            How::GrpcWebLayered => "Layered over GrpcWebLayer (named_layer)",
         }
     }
     fn parse(s: &str) -> How {
-        [How::Plain, How::Intercepted, How::WithInterceptor, How::Layered].into_iter().find(|h| h.s() == s).unwrap_or(How::Plain)
+        [How::Plain, How::Intercepted, How::WithInterceptor, How::Layered, How::GrpcWeb, How::GrpcWebLayered].into_iter().find(|h| h.s() == s).unwrap_or(How::Plain)
     }
 }
 #[derive(Clone, Debug, PartialEq)]
@@ -268,6 +274,11 @@ impl Target {
         S::Response: axum::response::IntoResponse,
         S::Future: Send + 'static,
     {
+        // Routes has no optional API: a service passed as add_optional_service(None) elsewhere is
+        // simply not added here
+        if opt == Some(false) && matches!(self, Target::Fresh | Target::Routes(_) | Target::Builder(_)) {
+            return self;
+        }
         match self {
             Target::Fresh => Target::Routes(Routes::new(svc)),
             Target::Routes(r) => Target::Routes(r.add_service(svc)),
@@ -298,6 +309,9 @@ where
         How::Plain => t.add(Wrap { inner: svc, reached }, opt),
         How::Intercepted | How::WithInterceptor => t.add(InterceptedService::new(svc, icpt(reached, name)), opt),
         How::Layered => t.add(RecLayer { reached, name }.named_layer(svc), opt),
+        // a gRPC (not grpc-web) HTTP/2 request must pass through GrpcWebService untouched
+        How::GrpcWeb => t.add(tower_layer::Layer::layer(&tonic_web::GrpcWebLayer::new(), Wrap { inner: svc, reached }), opt),
+        How::GrpcWebLayered => t.add(tower_layer::Stack::new(RecLayer { reached, name }, tonic_web::GrpcWebLayer::new()).named_layer(svc), opt),
     }
 }
 macro_rules! add_stub {
@@ -385,11 +399,56 @@ fn build(regs: &[Reg], w: &World, prepare: bool, via: Via) -> Result<Routes, Str
         }
     }))
 }
-/// Server::builder().add_service(a).add_service(b).add_optional_service(..)
-fn build_transport(regs: &[Reg], w: &World) -> Result<TRouter, String> {
+/// how the transport Router is put together
+#[derive(Clone, Copy, Debug, PartialEq)]
+struct TPlan {
+    /// Some(k): the first k registrations are added to a `Routes` (built through `via`, optionally
+    /// prepare()d) which is handed to Server::builder().add_routes(routes); the rest is added to
+    /// the resulting transport Router.  None: Server::add_service / add_optional_service first.
+    routes_first: Option<usize>,
+    via: Via,
+    prepare: bool,
+    /// serve_with_incoming_shutdown (signal never fires) instead of serve_with_incoming
+    with_shutdown: bool,
+}
+impl TPlan {
+    const PLAIN: TPlan = TPlan { routes_first: None, via: Via::Direct, prepare: false, with_shutdown: false };
+    fn json(&self) -> Value {
+        json!({"add_routes_with_first": self.routes_first, "via": self.via.s(), "prepare": self.prepare, "serve_with_incoming_shutdown": self.with_shutdown})
+    }
+    fn from_json(v: &Value) -> TPlan {
+        TPlan {
+            routes_first: v["add_routes_with_first"].as_u64().map(|k| k as usize),
+            via: Via::parse(v["via"].as_str().unwrap_or("")),
+            prepare: v["prepare"].as_bool().unwrap_or(false),
+            with_shutdown: v["serve_with_incoming_shutdown"].as_bool().unwrap_or(false),
+        }
+    }
+    fn gen(r: &mut Rng, n: usize) -> TPlan {
+        TPlan {
+            routes_first: if r.chance(1, 2) { Some(r.range(0, n as u64) as usize) } else { None },
+            via: Via::pick(r),
+            prepare: r.chance(1, 3),
+            with_shutdown: r.chance(1, 2),
+        }
+    }
+}
+/// Server::builder().add_service(a).add_service(b).add_optional_service(..), or
+/// Server::builder().add_routes(routes_with_services).add_service(..)..
+fn build_transport(regs: &[Reg], w: &World, plan: TPlan) -> Result<TRouter, String> {
     catch(std::panic::AssertUnwindSafe(|| {
-        let mut t = Target::Server(Server::builder());
-        for g in regs {
+        let (mut t, rest) = match plan.routes_first {
+            None => (Target::Server(Server::builder()), regs),
+            Some(k) => {
+                let k = k.min(regs.len());
+                let routes = match build(&regs[..k], w, plan.prepare, plan.via) {
+                    Ok(r) => r,
+                    Err(p) => panic!("{}", p),
+                };
+                (Target::Router(Server::builder().add_routes(routes)), &regs[k..])
+            }
+        };
+        for g in rest {
             t = register(t, g, w);
         }
         match t {
@@ -418,6 +477,7 @@ fn request(routes: &Routes, w: &World, uri: &http::Uri) -> Result<Obs, String> {
     let body = Body::new(http_body_util::Full::new(Bytes::from_static(FRAME)));
     let req = http::Request::builder()
         .method("POST")
+        .version(http::Version::HTTP_2) // gRPC is HTTP/2; GrpcWebService answers 400 to anything else
         .uri(uri.clone())
         .header("content-type", "application/grpc")
         .header("te", "trailers")
@@ -454,14 +514,18 @@ fn request(routes: &Routes, w: &World, uri: &http::Uri) -> Result<Obs, String> {
 
 /// the same over a real connection: the transport Router served with serve_with_incoming on one
 /// end of tokio::io::duplex, a raw h2 client on the other (so that arbitrary paths can be sent)
-fn wire_requests(router: TRouter, w: &World, uris: &[http::Uri]) -> Vec<Result<Obs, String>> {
+fn wire_requests(router: TRouter, w: &World, uris: &[http::Uri], with_shutdown: bool) -> Vec<Result<Obs, String>> {
     use tokio_stream::StreamExt;
     let rt = tokio::runtime::Builder::new_current_thread().enable_all().build().unwrap();
     let out = rt.block_on(async {
         let (client_io, server_io) = tokio::io::duplex(1 << 16);
         let incoming = tokio_stream::once(Ok::<_, std::io::Error>(server_io)).chain(tokio_stream::pending());
         tokio::spawn(async move {
-            let _ = router.serve_with_incoming(incoming).await;
+            if with_shutdown {
+                let _ = router.serve_with_incoming_shutdown(incoming, std::future::pending::<()>()).await;
+            } else {
+                let _ = router.serve_with_incoming(incoming).await;
+            }
         });
         let (send, conn) = match h2::client::handshake(client_io).await {
             Ok(x) => x,
@@ -619,10 +683,12 @@ fn gen_methods(r: &mut Rng) -> Vec<String> {
     v
 }
 fn gen_how(r: &mut Rng, real: bool) -> How {
-    match r.below(10) {
+    match r.below(14) {
         0..=3 => How::Plain,
         4 | 5 => How::Intercepted,
         6 | 7 => How::Layered,
+        8 | 9 => How::GrpcWeb,
+        10 | 11 => How::GrpcWebLayered,
         _ => {
             if real {
                 How::WithInterceptor
@@ -735,7 +801,7 @@ impl Ctx {
     /// kinds orders / orders.sampled: the same request against several registration orders.
     /// `idxs` = None: all n! orders as Model.Router.perms enumerates them (n <= 4);
     /// Some: the given arrangements of 0..n-1
-    fn orders(&mut self, kind: &str, regs: &[Reg], all: &[(Vec<Reg>, Result<Routes, String>)], idxs: Option<&Vec<Vec<usize>>>, uri_text: &str, mutation: &str, prepare: bool) {
+    fn orders(&mut self, kind: &str, regs: &[Reg], all: &[(Vec<Reg>, Result<Routes, String>)], idxs: Option<&Vec<Vec<usize>>>, uri_text: &str, mutation: &str, prepare: bool, via: Via) {
         let Some(uri) = self.parse_uri(uri_text) else { return };
         let path = uri.path().to_string();
         let mut trs = vec![];
@@ -772,6 +838,7 @@ impl Ctx {
         }
         self.hist_regs("orders", regs, mutation);
         self.out.hist("orders.prepare", prepare);
+        self.out.hist("orders.via", via.s());
         self.out.hist("orders.orders_tried", all.len());
         let model = match idxs {
             None => format!("obs_orders {} {}", coq_list(regs, |g| g.coq()), coq_bytes(path.as_bytes())),
@@ -784,7 +851,7 @@ impl Ctx {
         };
         self.out.push(Case {
             kind: kind.to_string(),
-            input: json!({"services": regs.iter().map(|g| g.json()).collect::<Vec<_>>(), "uri": uri_text, "path": path, "orders": all.len(), "order_indices": idxs, "prepare": prepare, "mutation": mutation}),
+            input: json!({"services": regs.iter().map(|g| g.json()).collect::<Vec<_>>(), "uri": uri_text, "path": path, "orders": all.len(), "order_indices": idxs, "prepare": prepare, "via": via.s(), "mutation": mutation}),
             model,
             impl_obs: Tr::L(trs),
             oracle: orc,
@@ -792,7 +859,7 @@ impl Ctx {
         });
     }
     /// kind transport: Server::builder() registration, served over duplex, raw h2 client
-    fn transport(&mut self, kind: &str, regs: &[Reg], uris: &[(String, String)]) {
+    fn transport(&mut self, kind: &str, regs: &[Reg], uris: &[(String, String)], plan: TPlan) {
         let model_regs = present(regs);
         let parsed: Vec<(String, String, http::Uri)> = uris
             .iter()
@@ -805,25 +872,34 @@ impl Ctx {
                 Some((u.clone(), d.clone(), uri))
             })
             .collect();
-        let router = build_transport(regs, &self.w);
+        let router = build_transport(regs, &self.w, plan);
         let results: Vec<Result<Obs, String>> = match router {
             Err(p) => parsed.iter().map(|_| Err(format!("registration panicked: {}", p))).collect(),
             Ok(router) => {
                 let us: Vec<http::Uri> = parsed.iter().map(|p| p.2.clone()).collect();
-                wire_requests(router, &self.w, &us)
+                wire_requests(router, &self.w, &us, plan.with_shutdown)
             }
         };
         for ((text, mutation, uri), o) in parsed.iter().zip(results) {
             let path = uri.path().to_string();
             self.hist_outcome(&model_regs, &o);
             self.hist_regs("transport", &model_regs, mutation);
-            for g in regs {
-                self.out.hist("transport.added_by", match g.opt { None => "add_service", Some(true) => "add_optional_service(Some)", Some(false) => "add_optional_service(None)" });
+            for (i, g) in regs.iter().enumerate() {
+                let in_routes = plan.routes_first.map(|k| i < k).unwrap_or(false);
+                self.out.hist("transport.added_by", match (in_routes, g.opt) {
+                    (true, Some(false)) => "not added (absent optional, before add_routes)",
+                    (true, _) => "Routes handed to Server::add_routes",
+                    (false, None) => "add_service",
+                    (false, Some(true)) => "add_optional_service(Some)",
+                    (false, Some(false)) => "add_optional_service(None)",
+                });
             }
+            self.out.hist("transport.add_routes", match plan.routes_first { None => "not used".to_string(), Some(k) => format!("with {} services", k.min(regs.len())) });
+            self.out.hist("transport.serve", if plan.with_shutdown { "serve_with_incoming_shutdown" } else { "serve_with_incoming" });
             let model = format!("obs_serve {} {}", coq_list(&model_regs, |g| g.coq()), coq_bytes(path.as_bytes()));
             self.out.push(Case {
                 kind: kind.to_string(),
-                input: json!({"services": regs.iter().map(|g| g.json()).collect::<Vec<_>>(), "uri": text, "path": path, "mutation": mutation}),
+                input: json!({"services": regs.iter().map(|g| g.json()).collect::<Vec<_>>(), "uri": text, "path": path, "mutation": mutation, "plan": plan.json()}),
                 model,
                 impl_obs: obs_tr(&o),
                 oracle: oracle(&model_regs, &path, &o),
@@ -858,14 +934,14 @@ impl Ctx {
     }
 }
 
-fn all_orders(regs: &[Reg], w: &World, prepare: bool) -> Vec<(Vec<Reg>, Result<Routes, String>)> {
-    perms(regs).into_iter().map(|p| { let r = build(&p, w, prepare, Via::Direct); (p, r) }).collect()
+fn all_orders(regs: &[Reg], w: &World, prepare: bool, via: Via) -> Vec<(Vec<Reg>, Result<Routes, String>)> {
+    perms(regs).into_iter().map(|p| { let r = build(&p, w, prepare, via); (p, r) }).collect()
 }
-fn orders_at(regs: &[Reg], idxs: &[Vec<usize>], w: &World, prepare: bool) -> Vec<(Vec<Reg>, Result<Routes, String>)> {
+fn orders_at(regs: &[Reg], idxs: &[Vec<usize>], w: &World, prepare: bool, via: Via) -> Vec<(Vec<Reg>, Result<Routes, String>)> {
     idxs.iter()
         .map(|ix| {
             let p: Vec<Reg> = ix.iter().map(|i| regs[*i].clone()).collect();
-            let r = build(&p, w, prepare, Via::Direct);
+            let r = build(&p, w, prepare, via);
             (p, r)
         })
         .collect()
@@ -895,14 +971,16 @@ fn run_replay(ctx: &mut Ctx, file: &str) {
     if kind.ends_with("build") {
         ctx.build_case(&kind, &regs, Via::parse(input["via"].as_str().unwrap_or("")));
     } else if kind.ends_with("transport") {
-        ctx.transport(&kind, &regs, &[(uri.to_string(), mutation.to_string())]);
+        ctx.transport(&kind, &regs, &[(uri.to_string(), mutation.to_string())], TPlan::from_json(&input["plan"]));
     } else if kind.ends_with("orders.sampled") {
         let idxs: Vec<Vec<usize>> = input["order_indices"].as_array().unwrap().iter().map(|p| p.as_array().unwrap().iter().map(|i| i.as_u64().unwrap() as usize).collect()).collect();
-        let all = orders_at(&regs, &idxs, &ctx.w, prepare);
-        ctx.orders(&kind, &regs, &all, Some(&idxs), uri, mutation, prepare);
+        let via = Via::parse(input["via"].as_str().unwrap_or(""));
+        let all = orders_at(&regs, &idxs, &ctx.w, prepare, via);
+        ctx.orders(&kind, &regs, &all, Some(&idxs), uri, mutation, prepare, via);
     } else if kind.ends_with("orders") {
-        let all = all_orders(&regs, &ctx.w, prepare);
-        ctx.orders(&kind, &regs, &all, None, uri, mutation, prepare);
+        let via = Via::parse(input["via"].as_str().unwrap_or(""));
+        let all = all_orders(&regs, &ctx.w, prepare, via);
+        ctx.orders(&kind, &regs, &all, None, uri, mutation, prepare, via);
     } else {
         let via = Via::parse(input["via"].as_str().unwrap_or(""));
         let routes = build(&regs, &ctx.w, prepare, via);
@@ -931,7 +1009,7 @@ fn main() {
         }
     }
     // the same with NAME propagated by tonic (interceptor / with_interceptor / Layered)
-    for how in [How::Intercepted, How::WithInterceptor, How::Layered] {
+    for how in [How::Intercepted, How::WithInterceptor, How::Layered, How::GrpcWeb, How::GrpcWebLayered] {
         let regs: Vec<Reg> = (0..7).map(|k| Reg { kind: Kind::Real(k), how, opt: None }).collect();
         let routes = build(&regs, &ctx.w, false, Via::Direct);
         for p in CORPUS_PATHS {
@@ -947,23 +1025,59 @@ fn main() {
     }
     // through tonic::transport::Server over a connection
     let paths: Vec<(String, String)> = CORPUS_PATHS.iter().map(|p| (p.to_string(), "corpus".to_string())).collect();
-    ctx.transport("corpus.transport", &real, &paths);
+    ctx.transport("corpus.transport", &real, &paths, TPlan::PLAIN);
+    // all seven handed over as ready-made Routes: Server::builder().add_routes(routes)
+    ctx.transport("corpus.transport", &real, &paths, TPlan { routes_first: Some(7), via: Via::Builder, prepare: false, with_shutdown: true });
+    ctx.transport("corpus.transport", &real, &paths, TPlan { routes_first: Some(3), via: Via::New, prepare: true, with_shutdown: false });
     let mixed: Vec<Reg> = vec![
         Reg { kind: Kind::Real(0), how: How::WithInterceptor, opt: None },
-        Reg { kind: Kind::Real(1), how: How::Plain, opt: Some(true) },
+        Reg { kind: Kind::Real(1), how: How::GrpcWeb, opt: Some(true) },
         Reg { kind: Kind::Real(2), how: How::Layered, opt: Some(false) },
         Reg { kind: Kind::Real(4), how: How::Intercepted, opt: None },
-        Reg { kind: Kind::Stub { idx: 3, methods: vec!["Get".into()] }, how: How::Layered, opt: Some(true) },
+        Reg { kind: Kind::Stub { idx: 3, methods: vec!["Get".into()] }, how: How::GrpcWebLayered, opt: Some(true) },
     ];
-    ctx.transport("corpus.transport", &mixed, &paths);
-    ctx.transport("corpus.transport", &[], &paths[..12]);
-    ctx.transport("corpus.transport", &[Reg { kind: Kind::Real(0), how: How::Plain, opt: Some(false) }], &paths[..12]);
+    ctx.transport("corpus.transport", &mixed, &paths, TPlan::PLAIN);
+    ctx.transport("corpus.transport", &mixed, &paths, TPlan { routes_first: Some(2), via: Via::Direct, prepare: false, with_shutdown: true });
+    ctx.transport("corpus.transport", &[], &paths[..12], TPlan::PLAIN);
+    ctx.transport("corpus.transport", &[Reg { kind: Kind::Real(0), how: How::Plain, opt: Some(false) }], &paths[..12], TPlan::PLAIN);
+    // prefix-sharing names (pkg.Svc / pkg.SvcX / Svc / pkg.Svc.Inner, real generated servers) in
+    // EVERY order through every transport registration path: a registration that probes by prefix
+    // un-routes the shorter name when the longer one is registered first
+    let prefix_paths: Vec<(String, String)> = [
+        "/pkg.Svc/Get", "/pkg.SvcX/Get", "/pkg.SvcX/GetX", "/Svc/Get", "/Svc/get", "/pkg.Svc.Inner/Get", "/pkg.Svc/Chat", "/pkg.Svc/GetX",
+        "/pkg.Sv/Get", "/pkg.SvcXY/Get", "/pkg.Svc./Get", "/pkg.Svc.Inne/Get", "/pkg/Get", "/pkg.Svc/",
+    ]
+    .iter()
+    .map(|p| (p.to_string(), "corpus".to_string()))
+    .collect();
+    let four: Vec<Reg> = (0..4).map(Reg::real).collect();
+    for (i, order) in perms(&four).into_iter().enumerate() {
+        let plan = match i % 4 {
+            0 => TPlan::PLAIN,
+            1 => TPlan { routes_first: Some(4), via: Via::Direct, prepare: false, with_shutdown: false },
+            2 => TPlan { routes_first: Some(2), via: Via::Builder, prepare: true, with_shutdown: true },
+            _ => TPlan { routes_first: Some(1), via: Via::New, prepare: false, with_shutdown: true },
+        };
+        ctx.transport("corpus.transport", &order, &prefix_paths, plan);
+        // and the complementary plan, so that every order meets add_routes AND add_service
+        let plan2 = if plan.routes_first.is_none() { TPlan { routes_first: Some(3), via: Via::BuilderFrom, prepare: false, with_shutdown: false } } else { TPlan::PLAIN };
+        ctx.transport("corpus.transport", &order, &prefix_paths, plan2);
+    }
+    // .. and through each way of building Routes directly
+    for via in [Via::Direct, Via::New, Via::Builder, Via::BuilderFrom] {
+        for prepare in [false, true] {
+            let all = all_orders(&four, &ctx.w, prepare, via);
+            for (p, _) in &prefix_paths {
+                ctx.orders("corpus.orders", &four, &all, None, p, "corpus", prepare, via);
+            }
+        }
+    }
     // the same names as stubs (finer observable is identical), incl. odd but legal names
     let stubs: Vec<Reg> = vec![Reg::stub(0, &["Get", "List"]), Reg::stub(1, &["Get", "GetX"]), Reg::stub(2, &["Get", "get"]), Reg::stub(3, &["Get"])];
     for prepare in [false, true] {
-        let all = all_orders(&stubs, &ctx.w, prepare);
+        let all = all_orders(&stubs, &ctx.w, prepare, Via::Direct);
         for p in CORPUS_PATHS {
-            ctx.orders("corpus.orders", &stubs, &all, None, p, "corpus", prepare);
+            ctx.orders("corpus.orders", &stubs, &all, None, p, "corpus", prepare, Via::Direct);
         }
     }
     let odd: Vec<Reg> = vec![
@@ -972,9 +1086,9 @@ fn main() {
         Reg::stub(26, &["M", "Get/x", ""]),   // NAME = "x": a method with '/', an empty method
         Reg::stub(19, &["M"]),                // a*b
     ];
-    let all = all_orders(&odd, &ctx.w, false);
+    let all = all_orders(&odd, &ctx.w, false, Via::Builder);
     for p in ["//M", "/x%2Fy/M", "/x%2fy/M", "/x/y/M", "/x%2Fy/x%2Fy", "/x/Get/x", "/x/Get", "/x/", "/x", "/a*b/M", "/aXb/M", "/a%2Ab/M", "///M", "//", "/"] {
-        ctx.orders("corpus.orders", &odd, &all, None, p, "corpus", false);
+        ctx.orders("corpus.orders", &odd, &all, None, p, "corpus", false, Via::Builder);
     }
     // registration panics
     for regs in [
@@ -996,20 +1110,22 @@ fn main() {
     for _ in 0..n_orders {
         let regs = gen_regs(&mut r, 4, 1);
         let prepare = r.chance(1, 2);
-        let all = all_orders(&regs, &ctx.w, prepare);
+        let via = Via::pick(&mut r);
+        let all = all_orders(&regs, &ctx.w, prepare, via);
         for _ in 0..paths_per {
             let (u, d) = gen_uri(&mut r, &regs);
-            ctx.orders("orders", &regs, &all, None, &u, &d, prepare);
+            ctx.orders("orders", &regs, &all, None, &u, &d, prepare, via);
         }
     }
     for _ in 0..n_sampled {
         let regs = gen_regs(&mut r, 8, 5);
         let prepare = r.chance(1, 2);
         let idxs = sample_orders(&mut r, regs.len(), 12);
-        let all = orders_at(&regs, &idxs, &ctx.w, prepare);
+        let via = Via::pick(&mut r);
+        let all = orders_at(&regs, &idxs, &ctx.w, prepare, via);
         for _ in 0..paths_per {
             let (u, d) = gen_uri(&mut r, &regs);
-            ctx.orders("orders.sampled", &regs, &all, Some(&idxs), &u, &d, prepare);
+            ctx.orders("orders.sampled", &regs, &all, Some(&idxs), &u, &d, prepare, via);
         }
     }
     for _ in 0..n_serve_sc {
@@ -1041,7 +1157,15 @@ fn main() {
             let aim_all = r.chance(1, 4);
             uris.push(gen_uri(&mut r, if aim_all { &regs } else { &model_regs }));
         }
-        ctx.transport("transport", &regs, &uris);
+        let plan = TPlan::gen(&mut r, regs.len());
+        if regs.len() <= 3 && r.chance(1, 2) {
+            // every registration order of a small set over the wire
+            for order in perms(&regs) {
+                ctx.transport("transport", &order, &uris, plan);
+            }
+        } else {
+            ctx.transport("transport", &regs, &uris, plan);
+        }
     }
     for _ in 0..n_build {
         let n = r.range(0, 5);
@@ -1060,6 +1184,24 @@ fn main() {
         ctx.build_case("build", &regs, Via::pick(&mut r));
     }
 
+    // Outside the model, recorded only: Routes made from a caller-supplied axum::Router
+    // (From<axum::Router>) carry THAT router's fallback, not tonic's `unimplemented`
+    let probe = {
+        let t = register(Target::Routes(Routes::from(axum::Router::new())), &Reg::real(0), &ctx.w);
+        let routes = match t {
+            Target::Routes(r) => r,
+            _ => unreachable!(),
+        };
+        let mut v = vec![];
+        for p in ["/nope/x", "/pkg.Svc/Nope", "/pkg.Svc/Get"] {
+            let o = request(&routes, &ctx.w, &p.parse().unwrap());
+            v.push(match o {
+                Ok(o) => json!({"path": p, "http": o.http, "grpc-status": o.headers.get("grpc-status").map(|x| String::from_utf8_lossy(x.as_bytes()).to_string()), "handlers": o.hits.len()}),
+                Err(e) => json!({"path": p, "error": e}),
+            });
+        }
+        v
+    };
     let unparsable = ctx.unparsable;
-    ctx.out.finish(IMPORTS, RULE, json!({"uris_rejected_by_http_crate_and_not_sent": unparsable}));
+    ctx.out.finish(IMPORTS, RULE, json!({"uris_rejected_by_http_crate_and_not_sent": unparsable, "routes_from_user_axum_router_probe (not judged)": probe}));
 }
